@@ -231,6 +231,9 @@ def parseDirective (p : Parser) : PRes (Directive × Parser) :=
 
 /-! ### statements -/
 
+/-- the optional colon after a label -/
+def skipColon (p : Parser) : Parser := match tokOf p with | some .colon => p.advance | _ => p
+
 /-- the label / blank-line prefix loop of `Stmt::parse` -/
 def parseLabels : Nat → Parser → List Label → Option (Nat × Nat) → List Label × Option (Nat × Nat) × Parser
   | 0, p, acc, last => (acc.reverse, last, p)
@@ -240,9 +243,7 @@ def parseLabels : Nat → Parser → List Label → Option (Nat × Nat) → List
       let sp := p.cursor
       match labelOf p with
       | some l =>
-        let p := p.advance
-        let p := match tokOf p with | some .colon => p.advance | _ => p
-        parseLabels fuel p (l :: acc) (some sp)
+        parseLabels fuel (skipColon p.advance) (l :: acc) (some sp)
       | none => match tokOf p with
         | some .newline => parseLabels fuel p.advance acc last
         | none => parseLabels fuel p.advance acc last
